@@ -235,6 +235,19 @@ func c16Run(c *mon.Ctx, unit int) {
 			if n.Kind == model.KRef && n.Rule("or") == nil && r.Chance(1, 6) {
 				n.Refs = append(n.Refs, n.Refs[r.Intn(len(n.Refs))])
 			}
+			// two annotations on one value: rules and note first, further rules second
+			if len(n.Rules) >= 2 && n.IsScalar() && r.Chance(1, 6) {
+				n.Split = r.Range(1, len(n.Rules)-1)
+				if n.Note == "" && r.Bool() {
+					n.Note = "the note"
+				}
+			}
+			// a QUOTED key that looks like a type name is an ordinary property
+			for _, p := range n.Props {
+				if !p.Shortcut && !strings.HasPrefix(p.Key, "@") && r.Chance(1, 10) {
+					p.Key = "@" + p.Key
+				}
+			}
 		})
 		// all styles that do not change meaning (rule order is kept: the AST lists rules as written)
 		st := model.Style{}
